@@ -121,7 +121,7 @@ def r20c(ctx):
     F = ctx.F
     a = an(F.body(POLL))
     fn = POLL
-    readies = [(b, si, e) for (b, si, k, e) in a.ret_sites() if e[0] == 'agg' and e[2].endswith('Poll::Ready')]
+    readies = [(sb if sb is not None else b, ssi if sb is not None else si, se) for (b, si, k, e) in a.ret_sites() for (sb, ssi, se) in a.flow.sources(e, (b, si)) if se[0] == 'agg' and se[2].endswith('Poll::Ready')]
     if not ctx.check(len(readies) >= 1, 'R20c', fn, 'Poll::Ready', '-', 'found the Poll::Ready return'):
         return
     stores = [s for s in a.calls('core::sync::atomic::Atomic::store') if flow.mentions(a.arg(s, 0), lambda z: z[0] == 'field' and z[2] == 'got_response') and a.arg(s, 1) == ('const', 1, 'bool')]
